@@ -114,9 +114,13 @@ def to_py(kind, v, net):
     return v
 
 
-def from_py(kind, p):
+def from_py(kind, p, net=None):
     """observe a parsed value in reference form (anything unexpected becomes a marker that compares unequal)"""
     try:
+        if net is not None and kind == "tx" and type(p) is not net.tx:
+            return ("wrong-class", "%s.%s instead of this network's transaction class" % (type(p).__module__, type(p).__name__))
+        if net is not None and kind in ("header", "block") and type(p) is not net.block:
+            return ("wrong-class", "%s.%s instead of this network's block class" % (type(p).__module__, type(p).__name__))
         if kind in ("u8", "u32", "u48", "u64", "varint"):
             return p if isinstance(p, int) and not isinstance(p, bool) else ("not-an-int", repr(p))
         if kind == "bool":
@@ -140,8 +144,8 @@ def from_py(kind, p):
         if isinstance(kind, (tuple, list)) and kind[0] == "array":
             ek = kind[1]
             if isinstance(ek, (tuple, list)):
-                return [tuple(from_py(k, x) for k, x in zip(ek, e)) if len(e) == len(ek) else ("arity", len(e)) for e in p]
-            return [from_py(ek, e) for e in p]
+                return [tuple(from_py(k, x, net) for k, x in zip(ek, e)) if len(e) == len(ek) else ("arity", len(e)) for e in p]
+            return [from_py(ek, e, net) for e in p]
     except Exception as e:
         return ("unobservable", exc(e))
     return ("unknown-kind", repr(kind))
@@ -352,6 +356,13 @@ class Messages(Driver):
     # ---- one case
     def run(self, case):
         msg = case["msg"]
+        # the networks are always created in the same order, whichever case runs first in a process: what one network's
+        # message codec does must not depend on which other networks exist (state shared between network objects)
+        for code in ("BTC", "LTC", "BCH", "BTG"):
+            try:
+                network(code)
+            except Exception:
+                pass
         net = network(case["coin"])
         if msg == "*layout*":
             return self.run_layout(case["name"])
@@ -374,7 +385,7 @@ class Messages(Driver):
                 if f not in d:
                     bad.append((f, "missing", None))
                     continue
-                got = from_py(k, d[f])
+                got = from_py(k, d[f], net)
                 want = norm_ref(k, Rv[f])
                 if got != want or (k == "optbool" and (got is None) != (want is None)):
                     bad.append((f, describe(want), describe(got)))
